@@ -8,7 +8,10 @@ from ..refs import canonjson, models, schema
 UNIVERSE = 6
 
 FILTERS = ["authorization", "crypto", "shape", "spelling", "distinct", "threshold", "misfiled",
-           "transplant"]
+           "transplant", "bad_threshold", "authorized_respelled"]
+
+BAD_THRESHOLDS = [{"$py": "float", "v": "nan"}, {"$py": "float", "v": "inf"}, {"$py": "float", "v": "-inf"}, 1.5, 0.5, 0, -1, "1", None, [1],
+                  {"$py": "decimal_nan"}, {"$py": "decimal_2_5"}, {"$py": "fraction_half"}, {"$py": "complex"}, 0.0, -0.0, 1e-300]
 
 
 def _payload(rng):
@@ -36,6 +39,7 @@ def gen_case(rng, gpg=None, stratum=None):
     outsiders = uni[n_auth:]
     pairs = []
     st_names = []
+    extra_auth = []
     vs = gentries.valid_states(gpg)
     ivs = gentries.invalid_states(gpg)
 
@@ -128,6 +132,25 @@ def gen_case(rng, gpg=None, stratum=None):
                 auth = auth + [auth[0]] * rng.randint(1, 2)
             else:
                 stratum = "sole:threshold"
+        elif filt == "bad_threshold":
+            # a threshold that is not a positive integer never lets anything through, however many valid signers there are
+            for k in rest:
+                add(k.hex, rng.choice(vs), k)
+            t = rng.choice(BAD_THRESHOLDS)
+        elif filt == "authorized_respelled":
+            # the authorized list itself names a key twice, the second time under another spelling, and the signature map
+            # files the signer's entry under both: one signer must never fill two slots
+            if nvalid >= 1:
+                k0 = auth[0]
+                sp = rng.choice(gkeys.respellings(k0.hex))
+                extra_auth = [sp]
+                import copy as _copy
+
+                src = next(p for p in pairs if p[0] == k0.hex)
+                pairs.append([sp, _copy.deepcopy(src[1])])
+                st_names.append("copy_under_respelling")
+            else:
+                stratum = "sole:threshold"
         elif filt == "threshold":
             if rng.random() < 0.4:
                 # every authorized key has a valid entry, the threshold is still one higher (legal "draft" shape),
@@ -158,7 +181,7 @@ def gen_case(rng, gpg=None, stratum=None):
     order = list(range(len(pairs)))
     rng.shuffle(order)
     pairs = [pairs[i] for i in order]
-    authorized = [k.hex for k in auth]
+    authorized = [k.hex for k in auth] + extra_auth
     if stratum != "sole:distinct":
         rng.shuffle(authorized)
     return {
@@ -182,7 +205,7 @@ def materialise(case, lib=None):
 
 
 def distinct_key(case):
-    return "%s|%s|%d|%s|%s" % (
+    return "%s|%r|%d|%s|%s" % (
         case["gpg"],
         case["threshold"],
         len(case["authorized"]),
